@@ -68,6 +68,10 @@ def run(chk):
     # both session models against the code, on the transparent-compression runs (the real-zlib runs are skipped by the two functions)
     zres = [r for r in res if not r.get("real_z")]
     W.report_client_model(chk, zres, "C01")
+    # several clients at once (both address families, user-to-user packets, slot re-use): generated sessions through the real loop and the
+    # byte-level server model - the world runs above have one client
+    import srvcheck
+    srvcheck.model_only(chk, "C01", runs=24 if chk.tier == "thorough" else 8, nsteps=400, seed_mul=141650939)
     W.report_server_model(chk, zres, "C01")
     W.report_rseq(chk, "C01")
     if not chk.violations and not proof_ok:
